@@ -43,7 +43,8 @@ type C12Expect struct {
 
 // key pool: Latin, Bangla, two names that differ only in letter case, and one
 // containing U+09DF (a letter whose NFC form is its decomposition)
-var c12Keys = []string{"alpha", "beta", "gamma", "delta", "\u0995", "\u09a8\u09be\u09ae", "ID", "id", "\u09ac\u09df\u09b8", FnLen}
+var c12Keys = []string{"alpha", "beta", "gamma", "delta", "\u0995", "\u09a8\u09be\u09ae", "ID", "id", "\u09ac\u09df\u09b8", FnLen,
+	"k2", "k10", "\u09a7\u09be\u09aa\u09e8", "\u09a7\u09be\u09aa\u09e7\u09e6"} // ... k2/k10 and ধাপ২/ধাপ১০: same stem, numeric suffixes of different length
 
 type c12Gen struct {
 	s      Src
@@ -267,7 +268,7 @@ func c12Program(s Src, maxOps int) (string, *C12Expect) {
 		for mi := 0; mi < nmut; mi++ {
 			kind := "literal"
 			if len(g.order) > 0 {
-				kind = Pick(s, "op", []string{"literal", "literal", "alias", "write-new", "write-existing", "write-existing", "delete", "delete", "fn-write", "fn-write-ret", "array-alias", "child", "child2", "child-write", "arr-prop", "arr-prop-write", "mk-twice", "fn-delete", "empty-literal", "read", "rewrite-literal"})
+				kind = Pick(s, "op", []string{"literal", "literal", "alias", "write-new", "write-existing", "write-existing", "delete", "delete", "fn-write", "fn-write-ret", "array-alias", "child", "child2", "child-write", "arr-prop", "arr-prop-write", "write-negzero", "mk-twice", "fn-delete", "empty-literal", "read", "rewrite-literal"})
 			}
 			opName := kind
 			switch kind {
@@ -376,6 +377,17 @@ func c12Program(s Src, maxOps int) (string, *C12Expect) {
 				val := g.val()
 				g.add(fmt.Sprintf("%s.%s = %d;", p, k, val))
 				g.heap[cid][k] = C12Val{Num: val}
+			case "write-negzero":
+				// 0 then -0 into the same property: equal under ==, different values
+				v := g.pickVar("target")
+				k := Pick(s, "key", c12Keys)
+				first, second := "0", "-0"
+				if Bool(s, "negfirst") {
+					first, second = "-0", "0"
+				}
+				g.add(fmt.Sprintf("%s.%s = %s;", v, k, first))
+				g.add(fmt.Sprintf("%s.%s = %s;", v, k, second))
+				g.heap[g.vars[v]][k] = C12Val{Text: second}
 			case "arr-prop":
 				p, c := g.pickVar("parent"), g.pickVar("childv")
 				pid, cid := g.vars[p], g.vars[c]
@@ -435,7 +447,23 @@ func c12Program(s Src, maxOps int) (string, *C12Expect) {
 				absent = append(absent, k)
 			}
 		}
-		kind := Pick(s, "failkind", []string{"read-absent", "delete-absent", "dot-on-number", "write-on-number", "read-absent-child", "dot-on-nil"})
+		kind := Pick(s, "failkind", []string{"read-absent", "delete-absent", "dot-on-number", "write-on-number", "read-absent-child", "dot-on-nil", "read-absent-deep", "read-absent-deep"})
+		var deepVar, deepKey, deepAbsent string
+		for _, dv := range g.order {
+			for _, dk := range sortedKeys(g.heap[g.vars[dv]]) {
+				if r := g.heap[g.vars[dv]][dk].Ref; r > 0 && deepVar == "" {
+					for _, k := range c12Keys {
+						if _, ok := g.heap[r][k]; !ok {
+							deepVar, deepKey, deepAbsent = dv, dk, k
+							break
+						}
+					}
+				}
+			}
+		}
+		if kind == "read-absent-deep" && deepVar == "" {
+			kind = "read-absent"
+		}
 		if (kind == "read-absent" || kind == "delete-absent") && len(absent) == 0 {
 			kind = "dot-on-number"
 		}
@@ -454,6 +482,9 @@ func c12Program(s Src, maxOps int) (string, *C12Expect) {
 			failLine = g.add(fmt.Sprintf("%s %s.nochild.alpha;", KwPrint, v))
 		case "dot-on-nil":
 			failLine = g.add(fmt.Sprintf("%s (nil).alpha;", KwPrint))
+		case "read-absent-deep":
+			// every hop exists, only the last property is absent
+			failLine = g.add(fmt.Sprintf("%s %s.%s.%s;", KwPrint, deepVar, deepKey, deepAbsent))
 		}
 		g.add(fmt.Sprintf("%s \"@AFTER\";", KwPrint))
 		mustFail = kind
